@@ -20,6 +20,48 @@ TRUSTED_BASE = [
 ]
 
 
+class Sub:
+    """view of a Check that files obligations under a key prefix (clauses borrowed from another rule module)"""
+
+    def __init__(self, parent, prefix, pred=None):
+        self.parent = parent
+        self.prefix = prefix
+        self.pred = pred          # key filter: only these clauses of the other rule belong to this property
+        self.forwarded = 0
+
+    def __getattr__(self, k):
+        return getattr(self.parent, k)
+
+    def oblig(self, ok, key, summary, detail=None, sample=None):
+        if self.pred is not None and not self.pred(key):
+            return
+        self.forwarded += 1
+        self.parent.oblig(ok, self.prefix + key, summary, detail, sample)
+
+    def violation(self, key, summary, detail=None):
+        if self.pred is not None and not self.pred(key):
+            return
+        self.parent.violation(self.prefix + key, summary, detail)
+
+    def require_anchor(self, cond, what):
+        if self.pred is not None:
+            return cond           # the lending rule reports its own anchors; the borrower checks `forwarded` instead
+        return self.parent.require_anchor(cond, self.prefix + what)
+
+    def borrow(self, module, config, floor, what):
+        """run the other rule's clauses for one MIR configuration and require that at least `floor` of them applied"""
+        before = self.forwarded
+        module.run_config(self, config)
+        self.parent.require_anchor(self.forwarded - before >= floor,
+                                   "%s%s: %d clause(s) evaluated, expected at least %d" % (self.prefix, what, self.forwarded - before, floor))
+
+    def add_engine_obligs(self, *a, **kw):
+        return Check.add_engine_obligs(self, *a, **kw)
+
+    def finish(self, *a, **kw):
+        raise RuntimeError("a borrowed clause must not finish the check")
+
+
 class Check:
     def __init__(self, pid, tier="quick", repo=None):
         self.pid = pid
@@ -35,6 +77,8 @@ class Check:
         self.extra = {}
         self._facts = {}
         self.analysed = {"functions": set(), "entries": []}
+        self.keys = []
+        self.used_contracts = {}         # (trait, method) pairs whose contract some engine of this check applied
 
     # ------------------------------------------------------------ facts
     def facts(self, config="default"):
@@ -58,6 +102,7 @@ class Check:
     def oblig(self, ok, key, summary, detail=None, sample=None):
         """one proof obligation of the property"""
         self.obligations += 1
+        self.keys.append(key)
         if ok:
             self.discharged += 1
             if sample is not None and len(self.samples) < 12:
@@ -167,6 +212,14 @@ class Check:
 
     # ------------------------------------------------------------ finish
     def finish(self, level, explanation=None, assumptions=None, exhaustive=None, rule=None):
+        if self.pid != "C18" and self.used_contracts:
+            # the proof used the Reader/Writer contract tables: discharge them for the methods it used
+            import importlib
+            c18 = importlib.import_module("rules.c18")
+            for cfg in list(self._facts):
+                c18.discharge(Sub(self, "contract | "), cfg, dict(self.used_contracts))
+            self.extra["contracts_discharged"] = sorted("%s::%s%s" % (k[0], k[1], "" if z or k[1] not in ("skip_bytes", "subreader", "bytes", "write_bytes", "write_bytes_at") else " (size >= 1 at every call site)")
+                                                        for k, z in self.used_contracts.items())
         if self.tier == "thorough":
             try:
                 self.selftest()
@@ -205,6 +258,7 @@ class Check:
             "functions_analysed": len(self.analysed["functions"]),
             "entries": self.analysed["entries"][:60],
             "notes": self.notes[:40],
+            "obligation_keys": sorted(set(self.keys))[:700],
         }
         if rule:
             cov["rule"] = rule
